@@ -267,8 +267,7 @@ def run(chk):
     except TV.TranslateError as e:
         raise core.InfraError(f'translate_vocab: {e}')
     PROPS = ['PeptVerif.Props.C10', 'PeptVerif.Props.C10TabU', 'PeptVerif.Props.C10TabP', 'PeptVerif.Props.C10TabX',
-             'PeptVerif.Props.C10Mass'] + (['PeptVerif.Props.C10Generic'] if os.path.exists(
-                 os.path.join(core.LEAN, 'PeptVerif', 'Props', 'C10Generic.lean')) else [])
+             'PeptVerif.Props.C10Mass', 'PeptVerif.Props.C10Generic', 'PeptVerif.Props.C10Glycan']
     chk.lean_build(PROPS, DRV)
     if chk.lean_problems:
         # a table theorem no longer checks: evaluate the same boolean checks entry by entry to name the witnesses
@@ -739,8 +738,8 @@ def run(chk):
     lap('oracle generic')
     if tier == 'thorough':
         chk.leanchecker(PROPS + ['PeptVerif.Lemmas.ModDbLemmas', 'PeptVerif.Lemmas.ModDbSpelling', 'PeptVerif.Lemmas.KSortC10',
-                                 'PeptVerif.Model.ModDb', 'PeptVerif.Model.Formula', 'PeptVerif.Model.ModDbFacts'] +
-                        (['PeptVerif.Lemmas.ModDbGeneric'] if 'PeptVerif.Props.C10Generic' in PROPS else []))
+                                 'PeptVerif.Lemmas.ModDbGeneric', 'PeptVerif.Model.ModDb', 'PeptVerif.Model.Formula',
+                                 'PeptVerif.Model.ModDbFacts'])
         lap('leanchecker')
     return chk.finish(classify)
 
